@@ -87,7 +87,9 @@ func pruneCache(keep int) {
 	}
 	var es []ent
 	for _, d := range des {
-		if fi, err := d.Info(); err == nil && d.IsDir() {
+		// only the worker builds are pruned here: the Go build cache next to them (gocache, kept small by ownGoCache)
+		// may be in use by another verif process, and removing it under a running build ends that check with exit 2
+		if fi, err := d.Info(); err == nil && d.IsDir() && strings.HasPrefix(d.Name(), "rt-") {
 			es = append(es, ent{d.Name(), fi.ModTime()})
 		}
 	}
